@@ -111,6 +111,8 @@ type Enc struct {
 	facts    []factRec
 	recState *State
 	rec      map[string]bool
+	ghostComps map[string]bool
+	freshMemo  map[*ssa.Function]map[string]bool
 }
 
 // specAssume evaluates a clause and assumes it together with the well-typedness facts of
